@@ -43,6 +43,50 @@ def schema_biased(rng, i):
             return nodes, v
     return nodes, v
 
+class EdgeValueGen(G.ValueGen):
+    """enum values at the ends of the symbol list and around the one-byte / two-byte boundary of the index (63 | 64)"""
+    def gen(self, k, depth=0):
+        n = self.nodes[k]
+        if n.kind() == "enum" and self.rng.random() < 0.7:
+            c = [i for i in (0, 62, 63, 64, 65, 127, 128, len(n.symbols) - 1) if i < len(n.symbols)]
+            return "(enum %d)" % self.rng.choice(c)
+        return G.ValueGen.gen(self, k, depth)
+
+def const_size_item_schemas(rng):
+    """item schemas all of whose values LOOK as if they had one encoded size: null, boolean, float, double, duration, fixed,
+    enums of 1..200 symbols (the index takes two bytes from symbol 64 on), and records (nested) made of those -- alone and as
+    items of an array / values of a map.  -> [(label, nodes)]"""
+    N = G.Node
+    leaves = lambda: [N("null"), N("boolean"), N("float"), N("double"), N("fixed", name="Du", size=12, lt="duration"),
+                      N("fixed", name="Fx%d" % rng.choice([0, 1, 5, 16]), size=0)]
+    def enum(n, nm="En"):
+        return N("enum", name="%s%d" % (nm, n), symbols=["S%d" % i for i in range(n)])
+    out = []
+    for n in (1, 2, 63, 64, 65, 66, 100, 127, 128, 129, 130, 200):
+        out.append(("enum-%d" % n, [enum(n)]))
+        # a record of fixed-size looking fields around the enum
+        ls = leaves()
+        for x in ls:
+            if x.t == "fixed" and x.lt is None:
+                x.size = int(x.name[2:])
+        pick = rng.sample(ls, rng.randint(1, 3))
+        fields, nodes = [], [None]
+        for i, x in enumerate(pick[:1] + [enum(n)] + pick[1:]):
+            nodes.append(x)
+            fields.append(("f%d" % i, len(nodes) - 1))
+        nodes[0] = N("record", name="Row", fields=fields)
+        out.append(("record-enum-%d" % n, nodes))
+        # nested: record { inner: Row-like, e: enum }
+        inner = [N("record", name="Outer", fields=[("a", 1), ("in", 2), ("z", 1)]), N("boolean")] + wrap.shift(nodes, 2)
+        out.append(("nested-record-enum-%d" % n, inner))
+    res = []
+    for lab, nodes in out:
+        res.append((lab, nodes))
+        res.append(("array-of-" + lab, [N("array", items=1)] + wrap.shift(nodes, 1)))
+        if rng.random() < 0.5:
+            res.append(("map-of-" + lab, [N("map", values=1)] + wrap.shift(nodes, 1)))
+    return res
+
 def run(ctx):
     rng = random.Random(ctx["seed"] * 1000003 + 12)
     n = 500 if ctx["tier"] == "quick" else 20000
@@ -104,6 +148,17 @@ def run(ctx):
     for _ in range(n // 2):
         nodes, v = G.schema_and_value(rng, max_nodes=rng.choice([6, 10, 16]), max_depth=rng.choice([3, 5]))
         cases.append((nodes, v, None, None, "typed-partly-ignored"))
+    # items whose encoded size looks constant (enums of 1..200 symbols with indices on both sides of 63|64, records of
+    # fixed-size fields around them), in arrays / maps written with positive-count blocks and with sized blocks, ignored in
+    # every way (unknown field, IgnoredAny field, ignored items / values, unit variant), followed by a field that is read
+    for lab, nodes in const_size_item_schemas(rng):
+        vg = EdgeValueGen(rng, nodes, layouts=rng.random() < 0.5)
+        for _ in range(2 if ctx["tier"] == "quick" else 10):
+            v = vg.gen(0)
+            if v is None:
+                continue
+            for w, e, t, exp, kind in wrap.ignoring_forms(rng, nodes, v, vg, G.rand_int(rng, -2**63, 2**63 - 1)):
+                cases.append((w, e, t, exp, "const-size-items-" + kind))
     sp = codec.spec_batch([(w, e) for w, e, *_ in cases])
     lines = []
     for i, ((w, e, t, exp, kind), s) in enumerate(zip(cases, sp)):
@@ -113,10 +168,45 @@ def run(ctx):
             cases[i] = (w, e, t, exp, kind)
         mode = rng.choice(["slice", "slice", "(chunks 1)", "(chunks %d)" % rng.randint(2, 40)])
         lines.append("de %s %s %s %s" % (s["schema"], t, s["enc"], mode))
+    # the same cases with DeserializerConfig::allowed_depth set to the least budget with which READING the whole value succeeds
+    # -- under the full typed target of the specification AND under the dynamic target -- found by bisection on the model: the
+    # target that ignores parts / lacks fields must succeed there too, with the same values (ignoring may not need more nesting
+    # budget than reading). Both readings are asked for because deserialize_option delivers None for the null branch of a
+    # union without charging the union's level, which `any` and IgnoredAny do charge (counted below as 'option-none-free').
+    def least_budget(target_of):
+        base = ["de %s %s %s slice" % (s["schema"], target_of(s), s["enc"]) for s in sp]
+        lo, hi = [-1] * len(sp), [64] * len(sp)          # reading fails at lo (or lo = -1), succeeds at hi
+        while any(h - l > 1 for l, h in zip(lo, hi)):
+            idx = [i for i in range(len(sp)) if hi[i] - lo[i] > 1]
+            res = C.run_parallel(C.AVROMODEL, ["%s (cfg 1000000000 %d)" % (base[i], (lo[i] + hi[i]) // 2) for i in idx])
+            for i, r in zip(idx, res):
+                if r.startswith("(ok"):
+                    hi[i] = (lo[i] + hi[i]) // 2
+                else:
+                    lo[i] = (lo[i] + hi[i]) // 2
+        return base, hi
+    full, hi_t = least_budget(lambda s: s["ttarget"])
+    full_any, hi_a = least_budget(lambda s: "any")
+    hi = [max(a, b) for a, b in zip(hi_t, hi_a)]
+    option_none_free = sum(1 for a, b in zip(hi_t, hi_a) if a < b)
+    n_plain = len(lines)
+    base_cases = list(cases)
+    dl_full = []
+    for i, ((w, e, t, exp, kind), s) in enumerate(zip(base_cases, sp)):
+        mode = rng.choice(["slice", "slice", "(chunks 1)", "(chunks %d)" % rng.randint(2, 40)])
+        lines.append("de %s %s %s %s (cfg 1000000000 %d)" % (s["schema"], t, s["enc"], mode, hi[i]))
+        cases.append((w, e, t, exp, "min-depth-" + kind.replace("const-size-items-", "")))
+        dl_full.append("%s (cfg 1000000000 %d)" % (full[i], hi[i]))
+        dl_full.append("%s (cfg 1000000000 %d)" % (full_any[i], hi[i]))
     impl, model = codec.both(lines)
     violations, diffs, samples, distinct = [], [], [], set()
     from collections import Counter
     dist = Counter()
+    dist["option-none-free (typed reading needs less budget than dynamic reading)"] = option_none_free
+    # (reading the whole value at that budget succeeds on the crate as on the model: otherwise a difference, not a violation)
+    for line, ri in zip(dl_full, C.run_parallel(C.AVRODRIVE, dl_full)):
+        if not ri.startswith("(ok"):
+            diffs.append(codec.diff_entry(line, ri, "(ok ...) at the minimal allowed_depth found on the model"))
     for line, ri, rm, (w, e, t, exp, kind) in zip(lines, impl, model, cases):
         distinct.add(line)
         dist[kind] += 1
@@ -134,5 +224,9 @@ def run(ctx):
                     "decodes and the input is consumed exactly; record{ignored: S, array<T> | map<T> that IS read and has byte-size prefixed "
                     "blocks, sentinel} with S biased to unions / records of unions / unions of arrays and maps: the container read after the "
                     "ignored part must have exactly the specification's items; random typed targets with fields left out / parts ignored / "
-                    "branches as unit variants: expected the specification's typed value with those parts removed; slice and chunked readers; model vs crate",
+                    "branches as unit variants: expected the specification's typed value with those parts removed; items whose encoded size looks "
+                    "constant (enums of 1..200 symbols with indices around 63|64, flat and nested records of null / boolean / float / double / "
+                    "fixed / duration / enum fields) alone, in arrays and maps, positive-count and sized blocks, ignored in every way and followed "
+                    "by a field that is read; EVERY case again with allowed_depth = the least budget with which the model reads the whole value "
+                    "under the full typed target and under the dynamic target (bisection): the ignoring target must succeed with the same values; slice and chunked readers; model vs crate",
             "samples": samples, "violations": violations, "model_diffs": diffs, "distribution": dict(dist)}
